@@ -270,9 +270,10 @@ def readSimple (f : File) (r : Rd) : Outcome SimpleSection × Rd :=
   | (.diverge, r1) => (.diverge, r1)
 
 /-- `reader.readHeader`: `r.off = sz - 8` (wraps below 8), the TOC section, seek, section count -/
+def headerStart (f : File) : Rd := ⟨(f.size + two32 - 8) % two32⟩
+
 def readHeader (f : File) : Outcome (SimpleSection × Nat × Nat) :=
-  let r0 : Rd := ⟨(f.size + two32 - 8) % two32⟩
-  match readSimple f r0 with
+  match readSimple f (headerStart f) with
   | (.ok toc, _) =>
     match rdFixed f 4 ⟨toc.off⟩ with
     | (.ok n, r2) => .ok (toc, n, r2.off)
